@@ -11,7 +11,9 @@
    (Corr/C06.v): text_ok = no ESC and no LF in the texts the encoder copies verbatim (timestamp,
    logger name, caller file/function, level tag, attribute keys, and the float/complex/time/%v
    fallback texts, which colour mode prints UNQUOTED); colors_ok = the colour numbers of the
-   level registry are >= 0 (background: or -1 = none).
+   level registry are >= 0 (background: or -1 = none).  The tag width is 1..5 as in the property:
+   outside that range Level.ShortTag panics (the setter accepts 0), which the encoder model does
+   not represent (tag_of is then empty), so the theorems are stated for 1..5 only.
 
    The layout keeps the blank the encoder writes for a group itself: a group shows as one extra
    blank in front of its members (which carry the dotted key); see lay_value in Model/Ansi.v. *)
@@ -31,7 +33,7 @@ Definition isprint_std (isprint : Z -> bool) : Prop :=
    record contains no escape byte outside its own colour sequences. *)
 Theorem C06_hygiene : forall isprint, isprint_std isprint ->
   forall g c msg attrs out,
-  e_mode c = ShColor -> colors_ok g = true ->
+  e_mode c = ShColor -> 1 <= e_tagw c <= 5 -> colors_ok g = true ->
   text_ok (e_ts c) = true -> text_ok (e_name c) = true -> caller_texts_ok (e_caller c) = true ->
   text_ok (tag_of g (e_tagw c) (e_lvl c)) = true ->
   attrs_ok attrs = true ->
@@ -39,7 +41,7 @@ Theorem C06_hygiene : forall isprint, isprint_std isprint ->
   encode isprint g c msg attrs = Some out ->
   hygienic out.
 Proof.
-  intros isprint Hi g c msg attrs out Hm Hc Ht Hn Hca Htg Ha Hmsg He.
+  intros isprint Hi g c msg attrs out Hm _ Hc Ht Hn Hca Htg Ha Hmsg He.
   exact (hygiene_thm isprint Hi g c msg attrs Hm Hc Ht Hn Hca Htg Ha out Hmsg He).
 Qed.
 Print Assumptions C06_hygiene.
@@ -50,7 +52,7 @@ Print Assumptions C06_hygiene.
    the attributes are the sorted, de-duplicated list, whose keys ascend strictly. *)
 Theorem C06_layout : forall isprint, isprint_std isprint ->
   forall g c msg attrs,
-  e_mode c = ShColor -> colors_ok g = true ->
+  e_mode c = ShColor -> 1 <= e_tagw c <= 5 -> colors_ok g = true ->
   text_ok (e_ts c) = true -> text_ok (e_name c) = true -> caller_texts_ok (e_caller c) = true ->
   text_ok (tag_of g (e_tagw c) (e_lvl c)) = true ->
   attrs_ok attrs = true ->
@@ -59,7 +61,7 @@ Theorem C06_layout : forall isprint, isprint_std isprint ->
               /\ strip_sgr out = layout_of isprint g c msg attrs
               /\ strictly (norm_attrs attrs).
 Proof.
-  intros isprint Hi g c msg attrs Hm Hc Ht Hn Hca Htg Ha Hd Hb.
+  intros isprint Hi g c msg attrs Hm _ Hc Ht Hn Hca Htg Ha Hd Hb.
   destruct (layout_thm isprint Hi g c msg attrs Hm Hc Ht Hn Hca Htg Ha Hd Hb) as [out [H1 [H2 H3]]].
   exists out. repeat split; try assumption. exact (sort_dedupe_strict _).
 Qed.
